@@ -215,7 +215,7 @@ func TestC05(t *testing.T) {
 				if n.Catch != nil {
 					for i := range n.Tests {
 						n.Tests[i].Opts.Path = ""
-						if n.Tests[i].Complex != "" {
+						if c := n.Tests[i].Complex; c == "hand" || c == "handpath" {
 							n.Tests[i].Complex = "ctx"
 						}
 					}
